@@ -163,6 +163,8 @@ def run_check(check_cls, argv):
                     disagreements = chk.correspondence()
                 boost = 4 if (broken or disagreements) else 1
                 failures = chk.search(boost=boost)
+                # differences between the model side and the implementation noticed while searching
+                disagreements = list(disagreements) + list(getattr(chk, "late_disagreements", []))
             except Exception:
                 broken.append({"obligation": "check machinery ran to completion",
                                "errors": [traceback.format_exc()[-3000:]]})
